@@ -127,12 +127,63 @@ func (l layout) blocks(i int) [][2]int {
 	return out
 }
 
+// paddingOnly: every byte of piece i belongs to a padding file (BEP 47).
+func (l layout) paddingOnly(i int) bool {
+	start, end := i*l.pl, i*l.pl+l.pieceLen(i)
+	off := 0
+	for fi, fl := range l.lens {
+		fs, fe := off, off+fl
+		off = fe
+		if max(fs, start) < min(fe, end) && !l.pads[fi] {
+			return false
+		}
+	}
+	return true
+}
+
+// badPadArg: for a layout that has a padding-only piece (and no empty file), sometimes the option that makes the
+// generated torrent record a wrong SHA-1 for these pieces: such a piece can never be verified, so it must never be
+// reported as held and the torrent never completes.
+func (l layout) badPadArg(r *Rng) string {
+	has := false
+	for i := 0; i < l.numPieces(); i++ {
+		has = has || l.paddingOnly(i)
+	}
+	for _, fl := range l.lens {
+		if fl == 0 {
+			has = false
+		}
+	}
+	if !has || !r.Chance(40) {
+		return ""
+	}
+	return fmt.Sprintf(" badpadhash=%d", r.Pick(1, 1, 2))
+}
+
 func genLayout(r *Rng) layout {
 	var l layout
 	if r.Chance(60) {
 		l.pl = r.Pick(4, 8, 16, 32, 64)
 	} else {
 		l.pl = r.Pick(16384, 32768, 16384+4096, 49152, 65536)
+	}
+	if r.Chance(12) {
+		// a layout with a padding file that covers at least one whole piece: data, padding up to the next piece
+		// boundary plus one or two whole pieces, sometimes more data behind it
+		d := r.Pick(1, l.pl-1, l.pl, l.pl+1, r.Range(1, 2*l.pl))
+		l.lens = []int{d, (l.pl-d%l.pl)%l.pl + l.pl*r.Pick(1, 1, 2)}
+		l.pads = []bool{false, true}
+		if r.Chance(60) {
+			l.lens = append(l.lens, r.Pick(1, l.pl-1, l.pl, r.Range(1, 2*l.pl)))
+			l.pads = append(l.pads, false)
+		}
+		for _, x := range l.lens {
+			l.total += x
+		}
+		for l.numPieces() > 8 {
+			l.pl *= 2
+		}
+		return l
 	}
 	nf := r.Range(1, 4)
 	for i := 0; i < nf; i++ {
@@ -216,8 +267,8 @@ func absorb(peers []*scriptPeer, o string) {
 // (choke / disconnect) peers, interleaved with gated writes and stop/start commands.
 func genLoopDL(r *Rng, idx int, tier string, step func(op string) string) {
 	l := genLayout(r)
-	o := step(fmt.Sprintf("new pl=%d files=%s seq=%s cfg.AllowedFastSet=%d cfg.EndgameMaxDuplicateDownloads=%d cfg.MaxPeerAccept=%d",
-		l.pl, l.filesArg(), b01(r.Chance(30)), r.Pick(0, 2, 2, 10), r.Pick(1, 2, 20), r.Pick(2, 3, 20, 20)))
+	o := step(fmt.Sprintf("new pl=%d files=%s seq=%s cfg.AllowedFastSet=%d cfg.EndgameMaxDuplicateDownloads=%d cfg.MaxPeerAccept=%d%s",
+		l.pl, l.filesArg(), b01(r.Chance(30)), r.Pick(0, 2, 2, 10), r.Pick(1, 2, 20), r.Pick(2, 3, 20, 20), l.badPadArg(r)))
 	if !strings.HasPrefix(o, "ok") {
 		return
 	}
@@ -477,7 +528,7 @@ func genLifecycle(r *Rng, idx int, tier string, step func(op string) string) {
 	if dialHold {
 		dialCfg = fmt.Sprintf(" cfg.MaxPeerDial=%d", r.Pick(1, 1, 2))
 	}
-	o := step(fmt.Sprintf("new pl=%d files=%s seq=0 cfg.AllowedFastSet=0 stopafter=%s trackers=%d seeded=%s%s", l.pl, l.filesArg(), b01(stopAfter), ntrk, b01(seeded), dialCfg))
+	o := step(fmt.Sprintf("new pl=%d files=%s seq=0 cfg.AllowedFastSet=0 stopafter=%s trackers=%d seeded=%s%s%s", l.pl, l.filesArg(), b01(stopAfter), ntrk, b01(seeded), dialCfg, l.badPadArg(r)))
 	if !strings.HasPrefix(o, "ok") {
 		return
 	}
